@@ -2,7 +2,7 @@ import os
 from vlib import core, e1
 
 OPS = dict(END=0, CREATE=1, TCREATE0=2, TCREATE1=3, ATTACH=4, INFL_MSG=5, INFL_READ=6, INFL_TIMER=7,
-           SHUT=8, SHUT_B=9, SHUT_W=10, WAIT=11, DESTROY=12, QUIESCE=13, INFL_BUSY=14, GATE_B=15)
+           SHUT=8, SHUT_B=9, SHUT_W=10, WAIT=11, DESTROY=12, QUIESCE=13, INFL_BUSY=14, GATE_B=15, HOOK_WAITS=16)
 FAULTS_CREATE = 'SC_F_CALLOC|SC_F_EPOLL_CREATE|SC_F_PIPE2|SC_F_EPOLL_CTL|SC_F_PTHREAD_CREATE'
 
 
@@ -51,6 +51,18 @@ def scripts():
                     continue
                 ops = ['CREATE', 'TCREATE0', 'INFL_BUSY', 'QUIESCE', 'GATE_B'] + ([] if shut == 'none' else shut.split(',')) + ([] if wait == 'none' else [wait]) + ['DESTROY']
                 out.append(('busy/W%d/%s/%s' % (W, shut.replace(',', '+'), wait), W, '0', ops))
+    # attach_first after every thread (thread 0 included) was created: refused, and the refusal must leave the pool as it was
+    for W in (1, 2):
+        for shut in ('SHUT', 'SHUT_B,SHUT', 'SHUT_W'):
+            for wait in ('WAIT', 'none'):
+                out.append(('attach-refused/W%d/%s/%s' % (W, shut.replace(',', '+'), wait), W, '0',
+                            ['CREATE', 'TCREATE0', 'ATTACH'] + shut.split(',') + ([] if wait == 'none' else [wait]) + ['DESTROY']))
+    # the workers' stop hooks call tp_shutdown_wait() themselves
+    for W in (1, 2):
+        for shut in ('SHUT', 'SHUT_B,SHUT', 'SHUT_W'):
+            for wait in ('WAIT', 'none'):
+                out.append(('hookwait/W%d/%s/%s' % (W, shut.replace(',', '+'), wait), W, '0',
+                            ['HOOK_WAITS', 'CREATE', 'TCREATE0'] + shut.split(',') + ([] if wait == 'none' else [wait]) + ['DESTROY']))
     # resource failures during creation / thread start (fault menu: each call may fail; bound = number of failures)
     for W in (1, 2):
         out.append(('fail/W%d/create-only' % W, W, FAULTS_CREATE, ['CREATE', 'DESTROY']))
@@ -76,6 +88,9 @@ def plan(tier, vs):
         f = name.split('/')
         if f[0] == 'fail':
             jobs.append((name, 1 if tier == 'quick' else 2, 0 if tier == 'quick' else 1))
+            continue
+        if f[0] in ('attach-refused', 'hookwait'):
+            jobs.append((name, 1 if tier == 'quick' else 2, 1 if tier == 'quick' else 2))
             continue
         if f[0] == 'busy':
             jobs.append((name, 2 if tier == 'quick' else 3, 1 if tier == 'quick' else 2))
